@@ -8,7 +8,8 @@ package snaps
 //	jsonsnap  doc/form/json  -> validateJSON + takeJSONSnapshot
 //	  op jsonsnap doc=<hex> width=<n> indent=<hex> sort=<0|1>
 //	  jsonsnap <idx> valid=<0|1> text=<hex|->
-//	  (doc in the op line = the bytes validateJSON returned when valid, else the input)
+//	  (doc in the op line = the bytes validateJSON returned when valid, else the bytes it
+//	   rejected: the input, or the Go string when the input value is a string)
 //
 //	jsonset   doc + values=[hex gjson path, hex replacement JSON text]
 //	  op jsonset doc=<hex> path=<hex> value=<hex>
@@ -40,8 +41,13 @@ func vJSONSnap(r *vRunner, o vOp) {
 		cfg.json = &JSONConfig{Width: o.JSON.Width, Indent: o.JSON.Indent, SortKeys: o.JSON.SortKeys}
 		width, indent, sortKeys = o.JSON.Width, o.JSON.Indent, o.JSON.SortKeys
 	}
-	j, err := validateJSON(vInput(o.Form, doc))
+	input := vInput(o.Form, doc)
+	j, err := validateJSON(input)
 	seen := doc
+	if s, ok := input.(string); ok {
+		// a Go string is validated as JSON text (also when it came from form "value")
+		seen = []byte(s)
+	}
 	if err == nil {
 		seen = append([]byte{}, j...)
 	}
